@@ -2,6 +2,8 @@ import PromModel.Tsdb.WalFrame
 import PromModel.Suites.WalSuite
 import PromProofs.WalRoundtrip
 import PromProofs.WalLayout
+import PromProofs.WalLiveSim
+import PromProofs.WalLiveToks
 /-
   C13 — The write-ahead log returns exactly the records written.
   Property theorems only; the model is PromModel/Tsdb/WalFrame.lean, helper lemmas are in
@@ -78,10 +80,12 @@ theorem page_layout_inv (ps pps : Nat) (crc : Crc) (hps : WF ps) (batches : List
   The model (`lrReadRecord`, `lrBuild`, `lrNext`, `lrDrain`, `liveRun`) transcribes live_reader.go and is
   tied to the real `LiveReader` by the suite `wal` (ops `liveread`, `liveall`, `livecuts`, `livemut`) at
   every `Log` boundary and at generated prefix lengths around fragment headers/ends and page ends.
-  The general theorem below is **not proved** in this revision; it needs an invariant relating the
-  LiveReader's buffer window `(buf, readIndex, total, index, pre)` to the position in the fragment
-  structure given by `page_layout_inv` across arbitrary partial fills, which was not completed.
-  What is proved is the instance `live_reader_small_witness`. -/
+  The general theorem `live_reader_eq` below is proved by simulating `buildRecord`/`Next`/the drain loop
+  against the token structure of the file (`LToks`, derived from `page_layout_inv` and the successful
+  `Reader` run): the LiveReader's buffer is always a partly filled page of the file, `readIndex` a token
+  boundary, `(index, rec)` agree with the `Reader`'s fragment state; `Next` returns a record as soon as
+  its last fragment is wholly visible and otherwise `io.EOF` after having fetched every visible byte
+  (`lrNext_spec`, PromProofs/WalLiveSim.lean); no fuel of the model runs out. -/
 
 /-- Full statement: for every segment file of every log and every way of observing it grow (`chunks` =
     the successive pieces appended between observations, any lengths, `chunks.flatten = seg`), the
@@ -94,6 +98,43 @@ def live_reader_eq_full : Prop :=
       let obs := liveRun ps crc LState.init [] chunks
       obs.length = chunks.length ∧ (∀ o ∈ obs, o.2 = LStatus.eof) ∧
         (obs.map (·.1)).flatten = (readAll ps crc [seg]).1
+
+/-- **LiveReader = Reader on page-structured files.** For ANY byte string `F` made of pages of whole
+    fragments followed by zeros (the writer's layout invariant, `page_layout_inv`) that the `Reader`
+    reads to its end without error, and ANY way of observing it grow, the LiveReader drained after each
+    observation always ends with `io.EOF` (it waits on a partial fragment or record; it never reports
+    corruption, never gets stuck) and returns over all observations exactly the `Reader`'s records, in
+    order, each once. -/
+theorem live_reader_agrees_with_reader (ps : Nat) (crc : Crc) (hps : WF ps) (F : Bytes)
+    (hF : PagesOK ps crc F) (out : List Bytes) (e : Nat)
+    (hr : rloop ps crc RState.init F = (out, .eof e)) (chunks : List Bytes) (hc : chunks.flatten = F) :
+    (liveRun ps crc LState.init [] chunks).length = chunks.length ∧
+    (∀ o ∈ liveRun ps crc LState.init [] chunks, o.2 = LStatus.eof) ∧
+    ((liveRun ps crc LState.init [] chunks).map (·.1)).flatten = out := by
+  have htoks : LToks ps crc 0 0 [] F out := ltoks_of_pages hps.2 hF hr
+  refine liveRun_spec hps.1 hps.2 chunks LState.init [] F out
+    ⟨⟨Nat.le_refl _, by simp [LState.init], Nat.le_refl _, Nat.zero_le _⟩, htoks, by simp [LState.init, hc]⟩ ?_
+  intro h0
+  rw [h0] at hc
+  exact htoks.out_of_nil hc.symm
+
+/-- **The live half of C13**: `live_reader_eq_full` holds — every segment of every log, observed
+    growing through any nondecreasing sequence of prefix lengths, is returned by the tailing reader
+    record for record, with `io.EOF` (never an error) after every observation. -/
+theorem live_reader_eq : live_reader_eq_full := by
+  intro ps pps crc hps batches seg hseg chunks hc
+  obtain ⟨sr, hsegs, hsr, _⟩ := (Inv.logAll pps hps.1 hps.2 batches (crc := crc)).segments
+  have hpages : PagesOK ps crc seg := (LInv.logAll pps hps.1 batches).segments seg hseg
+  rw [hsegs] at hseg
+  obtain ⟨p, hp, rfl⟩ := List.mem_map.mp hseg
+  have h := hsr p hp
+  have hread : readAll ps crc [p.1] = (p.2, .eof p.1.length) := by
+    unfold readAll segStream
+    simp only [List.map_cons, List.map_nil, List.flatten_cons, List.flatten_nil, List.append_nil,
+      segPad_aligned h.end_mod]
+    exact h.rloop_eq
+  rw [hread]
+  exact live_reader_agrees_with_reader ps crc hps p.1 hpages p.2 p.1.length h.rloop_eq chunks hc
 
 /-- A concrete instance (8-byte pages, 32-byte segments, checksum ≡ 7): records `[1,2,3]`, `[]`, `[9]`
     in two batches fill the first segment to its last page and spill into a second one; the first segment
